@@ -19,6 +19,16 @@ CHECKS = {
         technique='Coq proof (induction on fuel + loop invariants) of refinement Model.Merge -> Spec.Update; model tied by vm_compute correspondence; Python fold oracle for replays'),
 }
 
+CHECKS['C17'] = dict(
+    text='Machine-checked invariants-by-induction: C17_list_reachable / C17_dict_reachable (after ANY finite sequence of the public mutators, with arbitrary '
+         'in-range, out-of-range, negative or non-integer indices, the child map equals the enumeration 0..n-1 of / the same entries as the built-in storage and every '
+         'entry is a node), C17_list_error_unchanged (a raising operation leaves the list untouched), C17_walk_lookup (every (path,node) of the tree walk is found by get_node, '
+         'for every well-formed tree) and C17_path_roundtrip (split(join p) = p for every path of identifier / decimal-index components, over character strings). '
+         'Model.Container / Model.Path are tied to the code by correspondence after every single operation of generated sequences and on valid+invalid path strings; '
+         'which mutators each class overrides is a regenerated fact (FactsOk).',
+    design='4 (C17)',
+    technique='Coq invariant proofs over operation sequences + lexer round-trip proof; vm_compute correspondence per operation; Python two-view oracle for replays')
+
 NOT_APPLICABLE = {}
 
 
